@@ -65,6 +65,14 @@ func (w *Worker) ensureInit(p *ssa.Package) {
 func (w *Worker) specialInit(p *ssa.Package) {
 	switch p.Pkg.Path() {
 	case "net/http":
+		if g, ok := p.Members["NoBody"].(*ssa.Global); ok {
+			if t, ok := p.Members["noBody"].(*ssa.Type); ok {
+				id := w.globalObj(g)
+				w.initDepth++
+				w.store(Ptr{id, 0}, w.zero(t.Type()), t.Type())
+				w.initDepth--
+			}
+		}
 		// error sentinels used by the repo
 		for _, name := range []string{"ErrNotSupported", "ErrHijacked", "ErrBodyNotAllowed"} {
 			if g, ok := p.Members[name].(*ssa.Global); ok {
@@ -178,6 +186,19 @@ func (w *Worker) intrinsic(fn *ssa.Function, args []Val) (Val, bool) {
 		return Slice{s.Obj, s.Off, s.Len, s.Len, 1}, true
 	case "bytes.IndexByte", "internal/bytealg.IndexByte", "strings.IndexByte", "internal/bytealg.IndexByteString":
 		return w.indexByte(w.bytesOf(args[0]), args[1].(*Term)), true
+	case "internal/bytealg.Compare", "bytes.Compare", "strings.Compare", "internal/bytealg.CompareString":
+		a, oka := w.concreteStrBytes(toStr(args[0]))
+		b, okb := w.concreteStrBytes(toStr(args[1]))
+		if !oka || !okb {
+			panic(engineError{"bytes.Compare on symbolic data"})
+		}
+		r := 0
+		if string(a) < string(b) {
+			r = -1
+		} else if string(a) > string(b) {
+			r = 1
+		}
+		return ts.Const(64, uint64(int64(r))), true
 	case "internal/bytealg.Count", "internal/bytealg.CountString":
 		bs := w.bytesOf(args[0])
 		c := args[1].(*Term)
@@ -593,4 +614,14 @@ func (w *Worker) utf8ValidTerm(bs []*Term) *Term {
 									ts.Ite(eq(7), ts.Ite(in(b, 0x80, 0x8F), c(2), c(8)), c(8)))))))))
 	}
 	return ts.Eq(st, c(0))
+}
+
+func toStr(v Val) Str {
+	switch x := v.(type) {
+	case Str:
+		return x
+	case Slice:
+		return Str{x.Obj, x.Off, x.Len}
+	}
+	panic(engineError{"toStr"})
 }
